@@ -2,7 +2,7 @@
 cd /verif
 mkdir -p .scratch/runall_thorough
 ids=$(python3 -c "import json;print(' '.join(c['property_id'] for c in json.load(open('MANIFEST.json'))['checks']))")
-run_one() { id=$1; s=$(date +%s); VERIF_SEED=11 timeout 5400 ./check $id --tier thorough > .scratch/runall_thorough/$id.log 2>&1; rc=$?; e=$(date +%s); echo "$id rc=$rc t=$((e-s))s $(grep -c '^KNOWN-FINDING' .scratch/runall_thorough/$id.log) known $(grep -c '^VIOLATION' .scratch/runall_thorough/$id.log) viol" | tee -a .scratch/runall_thorough/summary.txt; }
+run_one() { id=$1; s=$(date +%s); VERIF_SEED=${VERIF_SEED:-0} timeout 5400 ./check $id --tier thorough > .scratch/runall_thorough/$id.log 2>&1; rc=$?; e=$(date +%s); echo "$id rc=$rc t=$((e-s))s $(grep -c '^KNOWN-FINDING' .scratch/runall_thorough/$id.log) known $(grep -c '^VIOLATION' .scratch/runall_thorough/$id.log) viol" | tee -a .scratch/runall_thorough/summary.txt; }
 export -f run_one
 : > .scratch/runall_thorough/summary.txt
 echo $ids | tr ' ' '\n' | xargs -P ${1:-3} -I{} bash -c "run_one {}"
